@@ -444,7 +444,7 @@ RECURSIVE BSContent(_, _, _, _)
 BSContent(t, a, indent, literal) ==
   LET s == a.s IN
   IF ~(s.col = indent /\ Peek(t, s, 0) \notin Z) THEN a
-  ELSE IF indent = 0 /\ IsDocEnd(t, s) THEN a
+  ELSE IF indent = 0 /\ IsDocInd(t, s) THEN a
   ELSE LET tblank == Peek(t, s, 0) \in Blank
            str1 == IF ~literal /\ a.lb # <<>> /\ ~a.lblank /\ ~tblank
                    THEN (IF a.tb = <<>> THEN Append(a.str, " ") ELSE a.str \o a.tb)
@@ -497,7 +497,7 @@ ScanBlockScalar(t, s0, literal) ==
                               a == BSContent(t, [s |-> s5, str |-> <<>>, lb |-> <<>>, tb |-> f.br, lblank |-> FALSE], indent, literal)
                               s6 == a.s
                               str1 == IF h.chomp # "-"
-                                      THEN (IF Peek(t, s6, 0) \in Z /\ s6.col >= Max(indent, 1) THEN Append(a.str \o a.lb, "\n") ELSE a.str \o a.lb)
+                                      THEN (IF Peek(t, s6, 0) \in Z /\ s6.col >= Max(indent, 1) /\ (a.lb = <<>> \/ h.chomp = "+") THEN Append(a.str \o a.lb, "\n") ELSE a.str \o a.lb)
                                       ELSE a.str
                               str2 == IF h.chomp = "+" THEN str1 \o a.tb ELSE str1
                           IN <<s6, Tok("Scalar", cm, Mark(s6), str2, style)>>
